@@ -4,7 +4,7 @@ Prints a matrix: which properties alarm on which mutant; writes /tmp/matrix.json
 import concurrent.futures as cf, glob, json, os, shutil, subprocess, sys, tempfile
 root = sys.argv[1]
 only = sys.argv[2:]
-PIDS = ['C%02d' % i for i in range(1, 21)]
+PIDS = os.environ.get('PIDS', '').split() or ['C%02d' % i for i in range(1, 21)]      # PIDS="C08 C09" restricts the checks run
 muts = []
 for d in sorted(glob.glob(os.path.join(root, '*', '*'))):
     if os.path.exists(os.path.join(d, 'patch.diff')):
